@@ -349,7 +349,7 @@ def jobs(tier):
     if not q:
         # (2 states over two symbols: 51+ input bits plus one choice variable per pop, did not finish in 6 CPU-minutes)
         add('nfa2dfa_n3_k1', job_nfa2dfa, n=3, k=1, timeout=900)
-    for fam in ('indirect_nullable', 'three_vars', 'repeated_nullable') + (() if q else ('useless_cyclic',)):
+    for fam in ('indirect_nullable', 'three_vars', 'repeated_nullable', 'nullable_by_pair') + (() if q else ('useless_cyclic',)):
         for phase in (2, 5) if q else (1, 2, 3, 4, 5):
             add('chomsky%d_%s' % (phase, fam), job_chomsky, family=fam, phase=phase, timeout=tmo)
     add('chomsky1_repeated_nullable_eps_e', job_chomsky, family='repeated_nullable', phase=1, eps='e', timeout=tmo)
